@@ -9,10 +9,10 @@ import (
 	"verif/busmodel"
 )
 
-var busOps = []string{"pub", "pub", "pub", "pubctx", "pubcancel", "sub", "sub", "unsub", "unsub", "clear", "clearall", "has", "count", "wait"}
+var busOps = []string{"pub", "pub", "pubany", "pubany", "pubctx", "pubcancel", "sub", "sub", "unsub", "unsub", "clear", "clearall", "has", "count", "wait"}
 var persistOps = []string{"replay", "replayup", "subreplay", "regupcast", "regupcast", "regupcasttyped", "clearupcasts", "clearupcaststype", "s_append", "s_append", "s_read", "s_stream", "s_save", "s_load"}
 var stateOps = []string{"m_apply", "m_apply", "m_replay", "m_last", "c_get", "c_all", "m_register"}
-var nestedOps = []string{"pub", "pub", "sub", "unsub", "clear", "has", "count", "regupcast", "m_apply", "c_get", "s_read"}
+var nestedOps = []string{"pub", "pubany", "sub", "unsub", "clear", "has", "count", "regupcast", "m_apply", "c_get", "s_read"}
 
 func genOp(t *rapid.T, pool []string, ntypes int) Op {
 	op := Op{K: rapid.SampledFrom(pool).Draw(t, "k"), T: rapid.IntRange(0, ntypes-1).Draw(t, "t"), N: rapid.IntRange(0, 63).Draw(t, "n"), Yield: rapid.IntRange(0, 2).Draw(t, "yield")}
